@@ -793,9 +793,13 @@ def _engine_direct(self, msg, identity=('alice', None)):
         response, max_size, pv = self.engine.process_request(msg, identity)
     except exceptions.KmipError as e:
         response = self.engine.build_error_response(pv, e.reason, str(e))
-    s = cutils.BytearrayStream()
     kv = contents.protocol_version_to_kmip_version(pv) or enums.KMIPVersion.KMIP_1_0
-    response.write(s, kmip_version=kv)
+    try:
+        s = cutils.BytearrayStream()
+        response.write(s, kmip_version=kv)
+    except Exception:   # noqa - the answer cannot be expressed in that version: show it as 2.0
+        s = cutils.BytearrayStream()
+        response.write(s, kmip_version=enums.KMIPVersion.KMIP_2_0)
     return Resp(bytes(s.buffer))
 
 
